@@ -35,12 +35,14 @@ func encV1(txns []types.Transaction) []byte {
 
 // a real block together with the state it builds on
 type realBlock struct {
-	cs     consensus.State // parent state
-	b      types.Block
-	supp   consensus.V1BlockSupplement
-	next   *consensus.State // state after the block (valid chain blocks only)
-	src    string           // "chain" | "synthetic"
-	replay map[string]any   // how to rebuild it
+	cs      consensus.State // parent state
+	b       types.Block
+	supp    consensus.V1BlockSupplement
+	next    *consensus.State // state after the block (valid chain blocks only)
+	src     string           // "chain" | "synthetic"
+	rep     bool             // carries the same transaction at several positions (repeatedBlock)
+	baseTxs int              // rep, chain: how many transactions of the chain block it was derived from it carries
+	replay  map[string]any   // how to rebuild it
 }
 
 // checkBlockRoundTrip: a valid block of a real chain is encoded in the block wire form (whose v2 part is the
